@@ -13,4 +13,4 @@ globals().update(make(
     lambda mon, case: any(b['full'] and b['released'] >= 3 for b in mon.buf.values()),
     lambda mon, case: (['buffer-held-batch'] if any(b['batch'] for b in mon.buf.values()) else [])
     + (['buffer-was-full'] if any(b['full'] for b in mon.buf.values()) else []),
-    quick=(400, 4), thorough=(2000, 16)))
+    quick=(900, 4), thorough=(3000, 16)))
